@@ -13,7 +13,7 @@ import time
 import z3
 
 from vlib import env, gen
-from vlib.zrun import explore_and_prove, all_eq, concretize, pyrepr, eq_term
+from vlib.zrun import twin_verdict, explore_and_prove, all_eq, concretize, pyrepr, eq_term
 from vlib.zsym import Int, Real, SymNum, sym_int, model_value, lift, term
 
 META = {
@@ -243,7 +243,7 @@ def task_admission(shapes, presence, lo, hi):
                 replay_src=REPLAY % dict(comps=pyrepr(cc), rxs=pyrepr(cr), accept=accepted, named=None)))
         if tw is None:
             ot, _, _ = ob_admission(shape, presence, lo, hi, twin=True)
-            tw = "violated" if ot.failed else "passed"
+            tw = twin_verdict(ot)
     res["twin"] = tw
     res["sample"] = {"shape": shapes[0], "presence": presence, "compositions": "symbolic ints", "coefficients": "symbolic %d..%d" % (lo, hi)}
     res["status"] = "violation" if res["violations"] else ("inconclusive" if res["inconclusive"] else "discharged")
